@@ -19,6 +19,7 @@ import xml.parsers.expat as expat
 
 ROOT = os.path.dirname(os.path.dirname(os.path.abspath(__file__)))
 OUT = os.path.join(ROOT, 'replay', 'data', 'ill_formed_mutants.txt')
+OUT_WELL = os.path.join(ROOT, 'replay', 'data', 'well_formed_mutants.txt')
 
 SEEDS = [
     '<r/>',
@@ -116,7 +117,7 @@ def esc(s):
 
 def main():
     cap = int(sys.argv[sys.argv.index('--max') + 1]) if '--max' in sys.argv else 10 ** 9
-    seen, out = set(), []
+    seen, out, well = set(), [], []
     skipped_entity_text = 0
     skipped_decl_name = 0
     for s in SEEDS:
@@ -129,7 +130,10 @@ def main():
             if re.search(r'SYSTEM|PUBLIC|%', m) and '<!DOCTYPE' in m:
                 continue      # external subset / parameter entities change what is a well-formedness error
             code = expat_error(m)
-            if code is None or code in EXCLUDED_CODES or code < 0:
+            if code is None:
+                well.append(m)      # a well-formed mutant: material for the round-trip and totality grids (C04, C03)
+                continue
+            if code in EXCLUDED_CODES or code < 0:
                 continue
             if blame_is_entity_text(m):
                 skipped_entity_text += 1
@@ -147,6 +151,10 @@ def main():
     with open(OUT, 'w') as f:
         for m in out:
             f.write(esc(m) + '\n')
+    with open(OUT_WELL, 'w') as f:
+        for m in well:
+            f.write(esc(m) + '\n')
+    print(f'{len(well)} well-formed mutants -> {OUT_WELL}')
     print(f'{len(out)} ill-formed mutants of {len(SEEDS)} seeds (+ duplicate-attribute tags) -> {OUT}; {skipped_entity_text} left out: ill-formed only through entity replacement text, {skipped_decl_name}: only through the first character of a declared entity / notation name')
 
 
